@@ -41,10 +41,12 @@ package scheduler
 // node removal: every reservation the node reports is given up (one unReserve per element, none skipped), with the
 // application and ask of that reservation and this node
 //@ func (pc *PartitionContext) removeNode(nodeID string) (released []*objects.Allocation, confirmed []*objects.Allocation)
-//@   props C09
+//@   props C09 C02
 //@   sweep
 //@   mode nopanic=off
 //@   loop 1: invariant ncalls(scheduler.PartitionContext.unReserve) == rangeindex + 1
+//@   loop 1: exhaustive
+//@   at[capacity:C02] call scheduler.PartitionContext.updatePartitionResource#1: assert arg0 == pc && (forall t Key :: rv(arg1, t) == clamp64(0 - rv(node.totalResource, t)))
 //@   at[each] call scheduler.PartitionContext.unReserve#1: assert arg0 == pc && arg2 == node && node != nil && (r != nil ==> arg1 == r.app && arg3 == r.alloc)
 
 // application removal: asks (and with them reservations and pending) go first, the queue gives back the totals once,
@@ -135,6 +137,9 @@ package scheduler
 //@   at[placenode] call objects.Node.AddAllocation#2: assert arg0 == node && node != nil && arg1 == existing
 //@   at[placeapp] call objects.Application.AddAllocation#2: assert arg0 == app && arg1 == existing
 //@   ensures[nil] alloc == nil ==> !requestCreated && !allocCreated && err == nil
+//@   at[resizedok] call objects.Application.UpdateAllocationResources#1 after: assume (ret == nil) <==> resized(alloc)
+//@   ensures[notrace:C04,C13] err != nil ==> ncalls(objects.Queue.IncAllocatedResource) == 0 && ncalls(objects.Node.AddAllocation) == 0 && ncalls(objects.Application.AddAllocation) == 0 && ncalls(objects.Application.RecoverAllocationAsk) == 0 && ncalls(scheduler.PartitionContext.updateAllocationCount) == 0 && (ncalls(objects.Application.AllocateAsk) == 0 ==> ncalls(objects.Allocation.SetNodeID) == 0 && ncalls(objects.Node.UpdateAllocatedResource) == 0 && !(ncalls(objects.Application.UpdateAllocationResources) == 1 && resized(alloc)))
+//@ spec abstract resized(a *objects.Allocation) bool
 
 // every allocation of the request that is not processed is answered with a rejection: nothing is dropped silently
 //@ func (cc *ClusterContext) processAllocations(request *si.AllocationRequest)
@@ -163,9 +168,17 @@ package scheduler
 //@   holds cc != nil && cc.rmEventHandler != nil
 //@   at[wfSI] fieldaddr AllocationRelease.PartitionName#1: assume base != nil
 
+// every node of the request that asks to be created gets exactly one answer - accepted when the partition took it,
+// rejected (with the node's own id) otherwise - and updates of existing nodes get none; no node is skipped
 //@ func (cc *ClusterContext) processNodes(request *si.NodeRequest)
-//@   props C13
+//@   props C13 C04
 //@   sweep
+//@   loop 1: exhaustive
+//@   loop 1: each (nodeInfo != nil && (nodeInfo.Action == 1 || nodeInfo.Action == 6)) ==> len(acceptedNodes) + len(rejectedNodes) == iter(len(acceptedNodes) + len(rejectedNodes)) + 1
+//@   loop 1: each !(nodeInfo != nil && (nodeInfo.Action == 1 || nodeInfo.Action == 6)) ==> len(acceptedNodes) == iter(len(acceptedNodes)) && len(rejectedNodes) == iter(len(rejectedNodes))
+//@   at[accepted:C04] append acceptedNodes#1: assert err == nil && elem != nil && elem.NodeID == nodeInfo.NodeID
+//@   at[rejected:C04] append rejectedNodes#1: assert err != nil && elem != nil && elem.NodeID == nodeInfo.NodeID
+//@   at[created:C04] call scheduler.ClusterContext.addNode#1: assert arg1 == nodeInfo && (nodeInfo.Action == 1 || nodeInfo.Action == 6) && arg2 == (nodeInfo.Action == 1)
 //@   holds cc != nil && cc.rmEventHandler != nil && request != nil && (forall i int :: 0 <= i && i < len(request.Nodes) ==> request.Nodes[i] != nil)
 
 //@ func (cc *ClusterContext) handleRMUpdateApplicationEvent(event *rmevent.RMUpdateApplicationEvent)
@@ -234,3 +247,28 @@ package scheduler
 //@   at[validated] call configs.LoadSchedulerConfigFromByteArray#1 after: assume ret1 == nil ==> cfgvalidated(cc)
 //@   at[aftervalidation] call configs.SetConfigMap#1: assert cfgvalidated(cc)
 //@   at[applyvalidated] call scheduler.ClusterContext.updateSchedulerConfig#1: assert cfgvalidated(cc) && arg1 == conf
+
+// ================================================================ C02: the root maximum is the sum of the registered node capacities
+
+//@ func (pc *PartitionContext) updatePartitionResource(delta *resources.Resource)
+//@   props C02
+//@   sweep
+//@   mode nopanic=off
+//@   holds pc != nil && pc.root != nil && (pc.totalPartitionResource == nil || wfr(pc.totalPartitionResource))
+//@   at[rootmax] call objects.Queue.SetMaxResource#1: assert arg0 == pc.root && arg1 == pc.totalPartitionResource
+//@   ensures[sum] delta != nil ==> (forall t Key :: rv(pc.totalPartitionResource, t) == clamp64(old(rv(pc.totalPartitionResource, t)) + old(rv(delta, t)))) && ncalls(objects.Queue.SetMaxResource) == 1
+
+//@ func (pc *PartitionContext) addNodeToList(node *objects.Node) (err error)
+//@   props C02
+//@   sweep
+//@   mode nopanic=off
+//@   at[capacity] call scheduler.PartitionContext.updatePartitionResource#1: assert arg0 == pc && (forall t Key :: rv(arg1, t) == rv(node.totalResource, t))
+//@   ensures[counted] err == nil ==> ncalls(scheduler.PartitionContext.updatePartitionResource) == 1
+//@   ensures[notcounted] err != nil ==> ncalls(scheduler.PartitionContext.updatePartitionResource) == 0
+
+//@ func (cc *ClusterContext) updateNode(nodeInfo *si.NodeInfo)
+//@   props C02
+//@   sweep
+//@   mode nopanic=off
+//@   at[inputsize] call resources.NewResourceFromProto#1 after: assume mag(ret)
+//@   at[capacitychange] call scheduler.PartitionContext.updatePartitionResource#1: assert arg0 == partition && ncalls(objects.Node.SetCapacity) == 1 && (arg1 != nil ==> (forall t Key :: rv(arg1, t) == rv(node.totalResource, t) - old(rv(node.totalResource, t)))) && (arg1 == nil ==> (forall t Key :: rv(node.totalResource, t) == old(rv(node.totalResource, t))))
